@@ -497,7 +497,20 @@ func TestC11(t *testing.T) {
 		pm := &storagetypes.MsgPostFile{Creator: creator.Bech, Merkle: f.Merkle, FileSize: 21, MaxProofs: 1, Note: "{}"}
 		before := c11Owned(w)
 		cctx, write := w.f.Ctx.CacheContext()
-		custom, jerr := json.Marshal(map[string]interface{}{"post_file": pm})
+		payload := map[string]interface{}{"post_file": pm}
+		if len(w.files) > 0 && rapid.Bool().Draw(rt, "severalVariantsInOneMessage") {
+			// a contract's custom message is a JSON object with one member per operation; nothing stops a contract from sending
+			// several members at once, the others naming somebody else: whatever the binding makes of them, it may act for
+			// the contract only
+			vf := w.files[rapid.IntRange(0, len(w.files)-1).Draw(rt, "victimFile")]
+			payload["delete_file"] = &storagetypes.MsgDeleteFile{Creator: vf.Owner, Merkle: vf.Merkle, Start: vf.Start}
+			payload["shutdown_provider"] = &storagetypes.MsgShutdownProvider{Creator: vf.Owner}
+			payload["buy_storage"] = &storagetypes.MsgBuyStorage{Creator: vf.Owner, ForAddress: contract.Bech, DurationDays: 30, Bytes: 1_000_000_000, PaymentDenom: "ujkl"}
+			if rapid.Bool().Draw(rt, "withoutPostFile") {
+				delete(payload, "post_file")
+			}
+		}
+		custom, jerr := json.Marshal(payload)
 		must(jerr)
 		_, _, err := wasmMessenger(w.c.App).DispatchMsg(cctx, contract.Addr, "", wasmvmtypes.CosmosMsg{Custom: custom})
 		if err == nil {
